@@ -851,7 +851,10 @@ func simplifyLambda(expression b6.Expression, functions SymbolArgCounts) b6.Expr
 			}
 			i++
 		}
-		if i > 0 {
+		// The arguments dropped need to be all of the lambda's, and what
+		// remains can't depend on them, or be evaluated any earlier than
+		// it would have been.
+		if i > 0 && i == len(lambda.Args) && canDropLambdaArgs(lambda.Args, call, i) {
 			if i == len(call.Args) {
 				return Simplify(call.Function, functions)
 			}
@@ -864,6 +867,41 @@ func simplifyLambda(expression b6.Expression, functions SymbolArgCounts) b6.Expr
 		}
 	}
 	return expression
+}
+
+func canDropLambdaArgs(args []string, call b6.CallExpression, dropped int) bool {
+	if mentionsSymbols(call.Function, args) {
+		return false
+	}
+	for _, arg := range call.Args[dropped:] {
+		if _, ok := arg.AnyExpression.(b6.CallExpression); ok || mentionsSymbols(arg, args) {
+			return false
+		}
+	}
+	return true
+}
+
+func mentionsSymbols(e b6.Expression, symbols []string) bool {
+	switch e := e.AnyExpression.(type) {
+	case b6.SymbolExpression:
+		for _, s := range symbols {
+			if s == e.String() {
+				return true
+			}
+		}
+	case b6.CallExpression:
+		if mentionsSymbols(e.Function, symbols) {
+			return true
+		}
+		for _, arg := range e.Args {
+			if mentionsSymbols(arg, symbols) {
+				return true
+			}
+		}
+	case b6.LambdaExpression:
+		return mentionsSymbols(e.Expression, symbols)
+	}
+	return false
 }
 
 func simplifyQuery(query b6.Query) b6.Query {
